@@ -3,6 +3,7 @@
 from __future__ import annotations
 
 from copy import deepcopy
+from numbers import Integral
 from typing import TYPE_CHECKING, Any, Generic, Self, TypeVar, overload
 
 from quansino.moves.composite import CompositeMove
@@ -243,12 +244,12 @@ class BaseMove(Generic[OperationType, ContextType]):
         CompositeMove
             The composite move.
         """
-        if n < 1 or not isinstance(n, int):
+        if not isinstance(n, Integral) or n < 1:
             raise ValueError(
                 "The number of times the move is repeated must be a positive, non-zero integer."
             )
 
-        return self.composite_move_type([self] * n)
+        return self.composite_move_type([self] * int(n))
 
     __rmul__ = __mul__
 
